@@ -1579,6 +1579,8 @@ func c13GenerationsSequential(m *vk.Monitor) {
 		dsts := []netip.AddrPort{netip.MustParseAddrPort("198.51.100.9:53"), netip.MustParseAddrPort("198.51.100.10:443")}
 		model := map[*UdpEndpoint]*c13ModelEP{}
 		evicted := map[bpfTuplesKey]bool{} // entries the kernel side removed on its own: absence is not dae's doing
+		undeletable := map[bpfTuplesKey]bool{} // entries whose delete the kernel refused (injected fault): presence is not dae's doing
+		var closedMap *ebpf.Map
 		var hist []string
 		var vs []c13Verdict
 		trackerOf := func(g int) *udpConnStateTracker { return gens.trk[g] }
@@ -1648,7 +1650,7 @@ func c13GenerationsSequential(m *vk.Monitor) {
 									map[string]any{"history": hist, "shared_tracker": shared}})
 								return false
 							}
-							if w == 0 && has && (shared || c13EverOwnedOnlyBy(model, k, gi)) {
+							if w == 0 && has && !undeletable[k] && (shared || c13EverOwnedOnlyBy(model, k, gi)) {
 								vs = append(vs, c13Verdict{"tuple/kernel-entry-not-removed",
 									fmt.Sprintf("after %q: kernel flow entry still present although its last owner went away", after),
 									map[string]any{"history": hist, "shared_tracker": shared}})
@@ -1717,6 +1719,8 @@ func c13GenerationsSequential(m *vk.Monitor) {
 				r := bpfTuplesKeyFromAddrPorts(dst, src, uint8(syscall.IPPROTO_UDP))
 				gens.kernelPut(e.owner, f)
 				gens.kernelPut(e.owner, r)
+				delete(undeletable, f)
+				delete(undeletable, r)
 				c.ue.TrackUdpConnStateTuplePair(src, dst)
 				e.tuples[f], e.tuples[r] = true, true
 				desc = fmt.Sprintf("Track(conn%d, %v->%v)", c.Conn, src, dst)
@@ -1751,6 +1755,25 @@ func c13GenerationsSequential(m *vk.Monitor) {
 				if c == nil {
 					continue
 				}
+				// fault: the kernel refuses the delete of the flow entries (the generation's maps are
+				// being closed by a reload or shutdown in flight): the entries cannot be removed, but
+				// the ownership bookkeeping must still end the release (no tuple left half-released)
+				faulty := gens.haveMap && rng.IntN(5) == 0
+				if faulty {
+					if closedMap == nil {
+						if closedMap = c13NewTupleMap(); closedMap != nil {
+							_ = closedMap.Close()
+						}
+					}
+					if closedMap == nil {
+						faulty = false
+					}
+				}
+				if faulty {
+					gens.bpfs[0].ConnStateMap = closedMap
+					gens.bpfs[1].ConnStateMap = closedMap
+					m.Count("c_seq_closes_with_failing_kernel_delete", 1)
+				}
 				switch rng.IntN(3) {
 				case 0:
 					c.conn.failNow.Store(true)
@@ -1764,10 +1787,20 @@ func c13GenerationsSequential(m *vk.Monitor) {
 					desc = fmt.Sprintf("Invalidate(dialer%d)", c.conn.Dialer)
 					// closes every endpoint of that dialer that never carried traffic
 				}
+				if faulty {
+					gens.bpfs[0].ConnStateMap = gens.maps[0]
+					gens.bpfs[1].ConnStateMap = gens.maps[1]
+					desc += " while the kernel map refuses deletes"
+				}
 				for ue, e := range model {
 					if !e.closed && c13ConnOf(ue).closes.Load() > 0 {
 						e.closed = true
 						m.Count("c_seq_closed", 1)
+						if faulty {
+							for tk := range e.tuples {
+								undeletable[tk] = true
+							}
+						}
 					}
 				}
 			default:
